@@ -511,6 +511,49 @@ Definition import_run (inp : input) : list op * outcome :=
   let (st, out) := run_ops inp init_state import_prog in (rev (st_trace st), out).
 
 (* ================================================================== *)
+(* crash points: what the executed steps leave on the host.  The replica's
+   snapshot directory holds its older images, possibly a temporary directory
+   being filled and possibly the finalised directory of the imported image; the
+   log store either records the imported snapshot or it does not.  A power
+   failure after any number of steps leaves [host_after (firstn k trace)]
+   (copy = partial content of the temporary directory; FinalizeSnapshot = flag
+   file + atomic rename, refused when the final directory exists;
+   logdb.ImportSnapshot = one atomic write).                            *)
+
+Record hstate := mkH {
+  h_old_images : bool;       (* snapshot directories of the replica's own snapshots *)
+  h_temp : bool;             (* the temporary directory exists *)
+  h_temp_complete : bool;    (* ... and holds the complete image *)
+  h_final : bool;            (* the finalised directory of the imported image (complete, flagged) *)
+  h_record_imported : bool   (* the log store records the imported snapshot *)
+}.
+
+Definition host_step (st : hstate) (o : op) : hstate :=
+  match o with
+  | OCleanup => mkH false false false false (h_record_imported st)
+  | OCreateTemp => mkH (h_old_images st) true false (h_final st) (h_record_imported st)
+  | OCopy => mkH (h_old_images st) (h_temp st) (h_temp st) (h_final st) (h_record_imported st)
+  | OFinalize =>
+    if h_temp st && h_temp_complete st && negb (h_final st)
+    then mkH (h_old_images st) false false true (h_record_imported st)
+    else st
+  | OLogDBImport => mkH (h_old_images st) (h_temp st) (h_temp_complete st) (h_final st) true
+  | _ => st
+  end.
+
+Definition host_after (tr : list op) (st : hstate) : hstate := fold_left host_step tr st.
+
+(* the steps of a run in which every check passes and no I/O fails *)
+Definition success_trace (ssdir_exists : bool) : list op :=
+  [OCheckSettings; OLocate; OReadMeta; OCheckComplete; OCheckExtFiles; OCheckMembers; ONewEnv;
+   OCreateNodeHostDir; OOpenLogDB; OCheckNodeHostDir;
+   if ssdir_exists then OCleanup else OCreateSSDir;
+   OCreateTemp; OProcess; OCopy; OFinalize; OLogDBImport].
+
+(* a half imported host: the log store names the imported image, the image is not there *)
+Definition half_imported (st : hstate) : bool := h_record_imported st && negb (h_final st).
+
+(* ================================================================== *)
 (* the log store                                                        *)
 
 Record hardstate := mkHS { hs_term : N; hs_vote : N; hs_commit : N }.
